@@ -128,6 +128,33 @@ def Expr.isProjectableKVs : List (String × Expr) → Bool
   | (_, x) :: xs => x.isProjectable && Expr.isProjectableKVs xs
 end
 
+-- does the expression mention a template slot (`Expr::slots` non-empty)
+mutual
+def Expr.hasSlot : Expr → Bool
+  | .lit _ => false
+  | .var _ => false
+  | .slot _ => true
+  | .unknown _ _ => false
+  | .ite c t e => c.hasSlot || t.hasSlot || e.hasSlot
+  | .and a b => a.hasSlot || b.hasSlot
+  | .or a b => a.hasSlot || b.hasSlot
+  | .unaryApp _ a => a.hasSlot
+  | .binaryApp _ a b => a.hasSlot || b.hasSlot
+  | .call _ args => Expr.hasSlotList args
+  | .getAttr e _ => e.hasSlot
+  | .hasAttr e _ => e.hasSlot
+  | .like e _ => e.hasSlot
+  | .is e _ => e.hasSlot
+  | .set xs => Expr.hasSlotList xs
+  | .record kvs => Expr.hasSlotKVs kvs
+def Expr.hasSlotList : List Expr → Bool
+  | [] => false
+  | x :: xs => x.hasSlot || Expr.hasSlotList xs
+def Expr.hasSlotKVs : List (String × Expr) → Bool
+  | [] => false
+  | (_, x) :: xs => x.hasSlot || Expr.hasSlotKVs xs
+end
+
 -- `Expr::substitute` (untyped): mapped unknowns are replaced by the value's expression
 mutual
 def Expr.subst (m : Mapper) : Expr → Expr
@@ -558,6 +585,18 @@ def PartialResponse.mayBeDetermining (pr : PartialResponse) : List String :=
     pr.satisfiedPermits ++ pr.residualPermits.map (·.1) ++ pr.residualForbids.map (·.1)
   else pr.satisfiedForbids ++ pr.residualForbids.map (·.1)
 
+/-- `construct_policy` / `Policy::from_when_clause_annos` build a *static* policy (empty slot environment) from
+    a residual; `Policy::new` then `expect`s that the template has no slots ("(values total map) does not
+    hold!").  A residual that kept a slot (best-effort fall-back to the original operand) makes it panic. -/
+def PartialResponse.mayPanics (pr : PartialResponse) : Bool :=
+  if pr.satisfiedForbids.isEmpty then
+    pr.residualPermits.any (·.2.hasSlot) || pr.residualForbids.any (·.2.hasSlot)
+  else pr.residualForbids.any (·.2.hasSlot)
+
+/-- the same `expect` reached from `all_residual_policies` (in `reauthorize`) -/
+def PartialResponse.residualPoliciesPanic (pr : PartialResponse) : Bool :=
+  pr.residualPermits.any (·.2.hasSlot) || pr.residualForbids.any (·.2.hasSlot)
+
 /-- ids of `must_be_determining` -/
 def PartialResponse.mustBeDetermining (pr : PartialResponse) : List String :=
   if pr.satisfiedForbids.isEmpty && pr.residualForbids.isEmpty then pr.satisfiedPermits
@@ -594,6 +633,7 @@ def PartialResponse.allResidualPolicies (pr : PartialResponse) : List Policy :=
 
 inductive ReauthErr where
   | concretization         -- `ConcretizationError` (conflict, wrong kind, entity type conflict, context substitution error)
+  | panic                  -- the `expect` in `Policy::new` (a residual with an unlinked slot)
   | stuck
 deriving Repr, DecidableEq, Inhabited
 
@@ -637,6 +677,7 @@ def PartialResponse.concretizeRequest (pr : PartialResponse) (m : Mapper) : Exce
 
 /-- `PartialResponse::reauthorize` -/
 def PartialResponse.reauthorize (pr : PartialResponse) (m : Mapper) (es : PEntities) : Except ReauthErr PartialResponse := do
+  if pr.residualPoliciesPanic then throw .panic
   let req ← pr.concretizeRequest m
   pure (isAuthorizedCore m req es pr.allResidualPolicies)
 
